@@ -10,7 +10,7 @@ sibling only keeps facts alive after the assumption they rest on was refuted."""
 from vfacts import strip, walk, is_node
 
 RULE = 'SIBLING'
-FLOOR = 8
+FLOOR = 6
 PAIRS = [('VATA::DownwardInclusionFunctor', 'VATA::OptDownwardInclusionFunctor')]
 ANCHORS = ['DownwardInclusionFunctor', 'OptDownwardInclusionFunctor']
 
